@@ -63,3 +63,23 @@ Theorem C09_history_complete : forall cs ops k,
                                                       (WorldStreamDefs.closed_of k (RouterStream.evs_of ops))).
 Proof. exact RouterStream.router_recv_complete. Qed.
 Print Assumptions C09_history_complete.
+
+(** * Routing over connections that answer each write from a script (Model/DirSend.v: [send_to] is ROUTER's send) *)
+From ZV Require Import Model.TrySend Model.RrSend Model.DirSend Proofs.RrSendProofs Proofs.DirSendProofs.
+
+(** a message for peer k touches no other connection and not the rotation, whatever its outcome *)
+Theorem C09_faulty_touches_only : forall st k m r st', send_to st k m = (r, st') ->
+  r_rr st' = r_rr st /\
+  forall j, j <> k -> wire_of j st' = wire_of j st /\ pget j (r_peers st') = pget j (r_peers st).
+Proof. exact send_to_touches_only. Qed.
+Print Assumptions C09_faulty_touches_only.
+
+Theorem C09_faulty_unknown : forall st k m, pget k (r_peers st) = None -> send_to st k m = (RNoPeer, st).
+Proof. exact send_to_unknown. Qed.
+Print Assumptions C09_faulty_unknown.
+
+Theorem C09_faulty_ok_whole : forall st k m k' st', send_to st k m = (ROk k', st') ->
+  k' = k /\ exists p, pget k (r_peers st) = Some p /\
+    (k_buf (p_sink p) = [] -> wire_of k st' = wire_of k st ++ encode_frames m).
+Proof. exact send_to_ok_whole. Qed.
+Print Assumptions C09_faulty_ok_whole.
